@@ -52,6 +52,9 @@ type Parser struct {
 	// done is set when the parser has stopped and is about to close the
 	// channel
 	done bool
+	// nread counts the runes the parser has taken. A timeout only acts if
+	// nothing was read after the ESC which started it
+	nread uint64
 
 	oscData []rune
 	apcData []rune
@@ -122,6 +125,7 @@ outer:
 		default:
 			r := p.readRune()
 			p.mu.Lock()
+			p.nread += 1
 			p.state = anywhere(r, p)
 			if p.state == nil {
 				p.mu.Unlock()
@@ -485,10 +489,17 @@ func anywhere(r rune, p *Parser) stateFn {
 			// the timer fires
 			return escape
 		}
+		nread := p.nread
 		p.escTimeout = time.AfterFunc(10*time.Millisecond, func() {
 			p.mu.Lock()
 			defer p.mu.Unlock()
 			if p.done {
+				return
+			}
+			if p.nread != nread {
+				// The timeout fired while the next byte was being
+				// read. That byte has been parsed as what follows the
+				// ESC, it's too late to deliver an Escape key
 				return
 			}
 			p.emit(C0(0x1B))
